@@ -8,10 +8,10 @@
    whether a memattr target is new, what the discovery left behind):
      glob libxml=<0|1>
      <n> init <t> | <n> destroy <t>
-     <n> load <t> nodist=<b> nomemattr=<b> nocpukinds=<b> xml=<b> extra=<k> dists=<l> bind=<-|l>
+     <n> load <t> nodist=<b> nomemattr=<b> nocpukinds=<b> xml=<b> extra=<k> dists=<l> bind=<-|flag|none|l>
      <n> mod <t> restrict ok=<b> lives=<l> | insertmisc | insertgroup | allow | distadd nb=<k> | distremove
                  | maregister | maset <a> new=<b> | refresh
-     <n> cons <t> <name> [q a]
+     <n> cons <t> <name> [q a] [warns=<b>]
      threads <T> / prog <i> <op without n> / <n> run *)
 open C17_model
 
@@ -29,7 +29,7 @@ let cop_of toks = match toks with
   | "traverse" :: _ -> CTraverse | "typeprint" :: _ -> CTypePrint | "distget" :: _ -> CDistGet
   | "distrelease" :: _ -> CDistGet   (* the harness pairs every get with its release *)
   | "mameta" :: _ -> CMaMeta | "localnodes" :: _ -> CLocalNodes | "cpukinds" :: _ -> CCpukinds
-  | "sets" :: _ -> CSets | "bitmap" :: _ -> CBitmap | "exportxml" :: _ -> CExportXml | "exportsynth" :: _ -> CExportSynth
+  | "sets" :: _ -> CSets | "bitmap" :: _ -> CBitmap | "exportxml" :: _ -> CExportXml | "exportsynth" :: r -> CExportSynth (fb r "warns")
   | "maget" :: q :: a :: _ ->
     let q' = match int_of_string q with 0 -> QValue | 1 -> QBestTarget | 2 -> QBestInitiator | 3 -> QTargets | _ -> QInitiators in
     CMaGet (q', nat_of_int (int_of_string a))
@@ -52,7 +52,8 @@ let op_of toks = match toks with
     OLoad (nat_of_int (int_of_string t),
            { c_nodist = fb r "nodist"; c_nomemattr = fb r "nomemattr"; c_nocpukinds = fb r "nocpukinds";
              c_dists = nat_list (field r "dists"); c_extra_mattrs = nat_of_int (int_of_string (field r "extra"));
-             c_bind_restrict = (if bind = "-" || bind = "" then None else Some (nat_list (if bind = "none" then "-" else bind)));
+             c_bind = (if bind = "-" || bind = "" then None else if bind = "flag" then Some None
+                       else Some (Some (nat_list (if bind = "none" then "-" else bind))));
              c_xml = fb r "xml" })
   | "mod" :: t :: r -> OMod (nat_of_int (int_of_string t), mop_of r)
   | "cons" :: t :: r -> OCons (nat_of_int (int_of_string t), cop_of r)
@@ -61,6 +62,7 @@ let op_of toks = match toks with
 let static_name = function
   | SHideErrors -> "hwloc_hide_errors" | SXmlVerbose -> "hwloc__xml_verbose" | SNolibxmlImport -> "hwloc_nolibxml_import"
   | SNolibxmlExport -> "hwloc_nolibxml_export" | SLibxmlInit -> "hwloc_libxml2_init_once"
+  | SSynthWarned -> "hwloc__export_synthetic_memory_children"
 let loc_name = function
   | LTree _ -> "tree" | LDistList _ | LDistFlags _ | LDistObjs _ -> "dist" | LMaFlags _ | LMaCache _ -> "memattr"
   | LCpukinds _ -> "cpukinds" | LStChecked s | LStValue s -> "static:" ^ static_name s
